@@ -52,6 +52,16 @@ class StepBudget:
         self.active = True
         return self
 
+    def reset(self, budget=None):
+        """Start counting afresh (cheap: the tool stays registered)."""
+        mon = sys.monitoring
+        if budget is not None:
+            self.budget = budget
+        self.steps = 0
+        if self.tripped:
+            self.tripped = False
+            mon.set_events(self.tool, mon.events.LINE | mon.events.JUMP)
+
     def __exit__(self, *a):
         mon = sys.monitoring
         mon.set_events(self.tool, 0)
